@@ -439,7 +439,7 @@ type Profile struct {
 var allKinds = []string{"send", "multisend", "sell", "sellall", "buy", "createcoin", "recreatecoin", "createtoken", "recreatetoken",
 	"editcoinowner", "mint", "burn", "declare", "delegate", "unbond", "move", "seton", "setoff", "editcand", "editcandpk", "editcandcomm",
 	"createmultisig", "editmultisig", "sethalt", "voteupdate", "votecomm", "createpool", "addliq", "remliq", "sellpool", "buypool",
-	"sellallpool", "addorder", "remorder", "lockstake", "lock", "redeem", "pricevote", "unknowntype", "sellusdt", "sellbip", "dustorder", "fillorder", "buyheadroom"}
+	"sellallpool", "addorder", "remorder", "lockstake", "lock", "redeem", "pricevote", "unknowntype", "sellusdt", "sellbip", "dustorder", "fillorder", "buyheadroom", "remdust"}
 
 // GeneralProfile exercises every transaction type with modest fault rates.
 func GeneralProfile() Profile {
@@ -453,6 +453,7 @@ func GeneralProfile() Profile {
 	w["sethalt"], w["voteupdate"], w["pricevote"], w["unknowntype"], w["editcandpk"] = 0, 0, 1, 1, 1
 	w["dustorder"], w["fillorder"] = 2, 4
 	w["buyheadroom"] = 2
+	w["remdust"] = 1
 	return Profile{W: w, TxMin: 0, TxMax: 8, PAbsent: 0.03, PStreak: 0.02, PEvidence: 0.02, PBadNonce: 0.04, PBadSig: 0.03, PMultisig: 0.05,
 		PDup: 0.04, PGarbage: 0.02, PZeroGP: 0.02, PGasCustom: 0.2, PPayload: 0.1, PClockJump: 0.03, PWrongChain: 0.01, PBigAmt: 0.12}
 }
